@@ -317,13 +317,20 @@ def run_ops(case):
                     app.pop_error_handler(ECLS[int(p[1])], int(p[2]))
                     outs.append("ok")
                 elif op == "ab":
-                    app.add_before_response(hook_before(int(p[1])))
+                    # (both documented forms: the method, and the decorator for hooks with an odd number)
+                    if int(p[1]) % 2:
+                        app.before_response()(hook_before(int(p[1])))
+                    else:
+                        app.add_before_response(hook_before(int(p[1])))
                     outs.append("ok")
                 elif op == "pb":
                     app.pop_before_response(hook_before(int(p[1])))
                     outs.append("ok")
                 elif op == "aa":
-                    app.add_after_response(hook_after(int(p[1])))
+                    if int(p[1]) % 2:
+                        app.after_response()(hook_after(int(p[1])))
+                    else:
+                        app.add_after_response(hook_after(int(p[1])))
                     outs.append("ok")
                 elif op == "pa":
                     app.pop_after_response(hook_after(int(p[1])))
